@@ -6,6 +6,8 @@ from . import core, fam, ref6455, ref7692, sched
 
 
 def to_model(programs, compression=None):
+    if compression == "clock0":
+        compression = None
     out = []
     for p in programs:
         calls = []
@@ -74,6 +76,8 @@ def _try_frame(buf):
 
 def judge(programs, out, compression):
     """the statements of C11 and C12 on one execution of the real code; returns (c11 complaints, c12 complaints)"""
+    if compression == "clock0":
+        compression = None
     c11, c12 = [], []
     frames, err = decode_wire(out["wire"])
     if out.get("deadlock"):
